@@ -299,6 +299,7 @@ def explore_stream(st: Stream, flavours: t.List[str]) -> evid.Local:
         col_msgs[j] = [A.src(m) for m in msgs]
         loc.add("states")
     loc.distinct.add((st.role, st.note, n))
+    probe_cache: t.Dict[t.Any, t.Optional[str]] = {}
     for k in cols:
         have = col_msgs[k]
         for j in (c for c in cols if c >= k):
@@ -334,7 +335,10 @@ def explore_stream(st: Stream, flavours: t.List[str]) -> evid.Local:
                 if A.freeze(c) != col_state[j]:
                     # structurally different from the single delivery.  "The same state" is about what the session is to its
                     # user, so this counts only if something visible differs -- now, or on any of the continuations below.
-                    why = behaviour_differs(c, col_sess[j], s, j, ends)
+                    fk = (j, A.freeze(c))
+                    if fk not in probe_cache:
+                        probe_cache[fk] = behaviour_differs(c, col_sess[j], s, j, ends)
+                    why = probe_cache[fk]
                     if why:
                         loc.violation(f"state-depends-on-chunking:{fl}", f"session state after cut {k} + chunk to {j} ({fl}) differs from a single delivery of {j} bytes: {why}", {**case, "cuts": cuts, "flavour": fl})
                         continue
